@@ -1595,20 +1595,25 @@ impl Relation {
             );
         } else {
             let profiles = self.0.children().find(|n| n.kind() == PROFILES);
-            let idx = if let Some(profiles) = profiles {
-                profiles.index()
-            } else {
-                self.0.children_with_tokens().count()
-            };
+            let architectures: SyntaxElement = SyntaxNode::new_root_mut(builder.finish()).into();
             // Edit the relation in place, so that other handles to it stay
             // attached to the field
-            self.0.splice_children(
-                idx..idx,
-                vec![
-                    make_token(WHITESPACE, " "),
-                    SyntaxNode::new_root_mut(builder.finish()).into(),
-                ],
-            );
+            if let Some(profiles) = profiles {
+                // In front of the restriction lists, one blank on either side
+                let idx = profiles.index();
+                let after_blank = profiles
+                    .prev_sibling_or_token()
+                    .map_or(false, |p| p.kind() == WHITESPACE || p.kind() == NEWLINE);
+                let mut new_children = vec![architectures, make_token(WHITESPACE, " ")];
+                if !after_blank {
+                    new_children.insert(0, make_token(WHITESPACE, " "));
+                }
+                self.0.splice_children(idx..idx, new_children);
+            } else {
+                let idx = self.0.children_with_tokens().count();
+                self.0
+                    .splice_children(idx..idx, vec![make_token(WHITESPACE, " "), architectures]);
+            }
         }
     }
 
